@@ -161,6 +161,8 @@ func valuePool() []*variants.Variant {
 		variants.VariantFromDouble(math.Copysign(0, -1)), variants.VariantFromFloat(float32(math.Copysign(0, -1))),
 		variants.VariantFromArray([]*variants.Variant{variants.VariantFromDateTime(time.Date(2020, 1, 5, 1, 30, 0, 0, time.FixedZone("e", 5*3600))), mk(3)}),
 		variants.VariantFromArray([]*variants.Variant{variants.VariantFromDateTime(time.Unix(1614834367, 0).UTC()), variants.VariantFromDouble(math.Copysign(0, -1))}),
+		// the zero time.Time (0001-01-01T00:00:00Z) and its Unix second count
+		variants.VariantFromDateTime(time.Time{}), variants.VariantFromLong(-62135596800), mk(-62135596800), variants.VariantFromLong(-62135596799),
 	}
 }
 
